@@ -23,8 +23,9 @@ LEVEL_TEXT = ('15 theorems in coq/theories/Properties/C11.v. Unbounded: Noll clo
               'zero outside the mask, support-only dependence; angular orthogonality (Riemann integrals, all m, m\'); '
               'zernike_coordinates: origin = centroid of the support for every array size, rho = 1 at a farthest masked sample, '
               'support-only. Bounded (bound in the statement): IEEE-double row formula = exact row for j <= 2*10^5 (PrimFloat); '
-              'radial coefficients = binomial form and R(1) = 1 for n <= 40; radial orthogonality as a Riemann integral and '
-              'orthonormality of the normalised modes (separated disk integral) for n <= 20 (j <= 231). |Z| <= 1 is a numeric test only.')
+              'radial coefficients = binomial form and R(1) = 1 for n <= 40; radial orthogonality (and orthogonality to every lower-degree '
+              'monomial) as a Riemann integral and orthonormality of the normalised modes (separated disk integral) for n <= 50 '
+              '(j <= 1326). |Z| <= 1 is a numeric test only.')
 LEVEL_NOTE = ('Trusted: Coq kernel + stdlib Reals/Coquelicot axioms (integrals), PrimFloat (IEEE double primitives of the '
               'kernel), extraction, harness; np.sqrt/np.cos/np.sin/np.angle and IEEE rounding of the radial sum are '
               'modelled not verified (conditioning-scaled tolerance in the tie). The unnormalised bound |Z| <= 1 and '
